@@ -430,6 +430,17 @@ void interleave_ops(Rng &rng, const ConnPlan &cp, int conn, const std::vector<si
     auto remaining = [&](int d) { return i[d] + 1 < b[d].size() && b[d][i[d]] < b[d][i[d] + 1]; };
     while (remaining(0) || remaining(1)) {
         bool can[2] = {remaining(0), remaining(1)};
+        if (can[0]) {
+            // exchanges marked "@req_after_prev_res": the client waits for the previous answer (e.g. tunnel bytes after a 101)
+            size_t e = b[0][i[0] + 1], respos = b[1][i[1]];
+            for (size_t k = 1; k < cp.xchg.size(); k++) {
+                const Exchange &x = cp.xchg[k];
+                if (x.req.b > x.req.a && (size_t) x.req.a < e) {
+                    bool wait = false; for (auto &ex : x.expect) if (ex.first == "@req_after_prev_res") wait = true;
+                    if (wait && respos < (size_t) cp.xchg[k - 1].res.b) { can[0] = false; break; }
+                }
+            }
+        }
         if (can[1] && legal) {
             // a response chunk covering [a,e) may go only when every request whose response starts before e has been offered completely
             size_t e = b[1][i[1] + 1];
@@ -445,7 +456,7 @@ void interleave_ops(Rng &rng, const ConnPlan &cp, int conn, const std::vector<si
         if (can[0] && can[1]) d = rng.below(100) < (uint64_t) req_bias_pct ? 0 : 1;
         else if (can[0]) d = 0;
         else if (can[1]) d = 1;
-        else d = 0;   // cannot happen: request data is always allowed
+        else d = remaining(1) ? 1 : 0;   // both blocked cannot happen with consistent constraints; make progress anyway
         if (!remaining(d)) d = 1 - d;
         Op op; op.kind = d == 0 ? 'Q' : 'S'; op.conn = conn; op.n = (long) (b[d][i[d] + 1] - b[d][i[d]]);
         ops.push_back(op);
